@@ -636,7 +636,11 @@ func c19FailOpen(r *Run, s *c19State, op *Op) {
 			var e error
 			if blocking {
 				var bl klevdb.BlockingLog
-				bl, e = klevdb.OpenBlocking(r.Dir, opts)
+				if r.P.Cfg.Typed {
+					bl, e = openBlockingTyped(r.Dir, opts)
+				} else {
+					bl, e = klevdb.OpenBlocking(r.Dir, opts)
+				}
 				if e == nil {
 					l = bl
 				}
